@@ -101,6 +101,11 @@ def step (_ : Unit) (line : String) : Unit × Option String :=
         else if ok ≠ "1" then ((), some "argument decoder refused an all-zero message")
         else ((), none)
     | _, _, _ => ((), some "bad disp line")
+  | ["dispr", _prog, _vers, _proc, before, after] =>
+    -- the reply object of request A, encoded before and after other requests were dispatched: the RPC server encodes
+    -- a result after the wrapper has returned and while other requests run, so the object must belong to A alone
+    ((), if before = after then none
+         else some s!"the reply of one request was changed by the dispatch of others: it would be sent as {after.take 24}… instead of {before.take 24}…")
   | ["dispt", prog, vers, proc, bytes, name, ok] =>
     -- a (possibly truncated) argument message delivered to the registered handler: the handler is
     -- reached exactly when the RFC decoder accepts the message (`truncated_rejected`: a proper
